@@ -898,7 +898,7 @@ def c06(tier, seed):
         for bd in sorted(bodies):
             combos.append((rng.choice(NAMES[:6]), lg, bd))
     if tier == "quick":
-        combos = combos[:len(NAMES)] + rng.sample(combos[len(NAMES):], 26)
+        combos = combos[:len(NAMES)] + rng.sample(combos[len(NAMES):], 22) + [("TestEvery_" + bd, "text", bd) for bd in sorted(bodies)]   # (every body at least once)
     else:
         combos = combos * 12
     for i, (nm, lg, bd) in enumerate(combos):
